@@ -77,3 +77,45 @@ Proof.
         intros c Hc. apply P. right. exact Hc.
   - exfalso. apply (F 46); [apply in_or_app; right; left; reflexivity|reflexivity].
 Qed.
+
+(* --- independence of the secret values (non-interference) ------------------------------------- *)
+(* two header lists that differ at most in the VALUES of secret-bearing names *)
+Definition same_but_secrets (h1 h2 : list N * list N) : Prop :=
+  fst h1 = fst h2 /\ (secret_name (fst h1) = false -> snd h1 = snd h2).
+
+Lemma scrub_headers_noninterference hs1 : forall hs2 seen,
+  Forall2 same_but_secrets hs1 hs2 -> scrub_headers seen hs1 = scrub_headers seen hs2.
+Proof.
+  induction hs1 as [|[n1 v1] r1 IH]; intros hs2 seen F; inversion F as [|x y l l' Hxy Hr]; subst; [reflexivity|].
+  destruct y as [n2 v2]. destruct Hxy as [Hn Hv]. cbn [fst snd] in Hn, Hv. subst n2.
+  cbn [scrub_headers]. destruct (secret_name n1) eqn:S.
+  - destruct (existsb (name_eqb n1) seen); [apply IH; assumption|]. f_equal. apply IH; assumption.
+  - rewrite (Hv eq_refl). f_equal. apply IH; assumption.
+Qed.
+
+(* a byte that occurs in a scrubbed header value occurs in the placeholder or in the value of a
+   header whose name is not secret-bearing: no byte of a secret value is carried over *)
+Lemma scrub_headers_bytes_origin hs : forall seen n v k,
+  In (n, v) (scrub_headers seen hs) -> In k v ->
+  In k SCRUBBED \/ (secret_name n = false /\ In (n, v) hs).
+Proof.
+  induction hs as [|[m w] r IH]; intros seen n v k H K; cbn [scrub_headers] in H; [contradiction|].
+  destruct (secret_name m) eqn:Sm.
+  - destruct (existsb (name_eqb m) seen).
+    + destruct (IH _ _ _ _ H K) as [A|[A B]]; [left; exact A|right; split; [exact A|right; exact B]].
+    + destruct H as [H|H].
+      * inversion H; subst. left. exact K.
+      * destruct (IH _ _ _ _ H K) as [A|[A B]]; [left; exact A|right; split; [exact A|right; exact B]].
+  - destruct H as [H|H].
+    + inversion H; subst. right. split; [exact Sm|left; reflexivity].
+    + destruct (IH _ _ _ _ H K) as [A|[A B]]; [left; exact A|right; split; [exact A|right; exact B]].
+Qed.
+
+(* the SNI shown does not depend on the credentials label *)
+Lemma find_dot_app_nodot a : forall b, (forall c, In c a -> c <> 46) -> find_dot (a ++ 46 :: b) = Some (46 :: b).
+Proof.
+  induction a as [|x a IH]; intros b H; cbn [app find_dot].
+  - rewrite N.eqb_refl. reflexivity.
+  - destruct (x =? 46) eqn:E; [apply N.eqb_eq in E; exfalso; apply (H x); [left; reflexivity|exact E]|].
+    apply IH. intros c Hc. apply H. right. exact Hc.
+Qed.
